@@ -237,40 +237,19 @@ Proof.
   assert (NoSnoc : forall (pre : list receipt) a b a' b', pre ++ [a; b] = body ++ [a'; b'] -> a = a' /\ b = b').
   { intros pre a b a' b' E. change (pre ++ [a] ++ [b] = body ++ [a'] ++ [b']) in E. rewrite (app_assoc pre [a] [b]), (app_assoc body [a'] [b']) in E.
     apply app_inj_tail in E as [E ->]. apply app_inj_tail in E as [_ ->]. split; reflexivity. }
-  destruct T as [[-> [k ->]] | [[-> ->] | [-> [reason ->]]]].
-  - repeat split.
-    + rewrite count_app, Cs. reflexivity.
-    + exists gas. apply LastTwo.
-    + rewrite count_app, Cp. reflexivity.
-    + intros H. discriminate H.
-    + intros _. exists body, k, gas. reflexivity.
-    + intros (pre & k' & g' & E). reflexivity.
-    + intros H. discriminate H.
-    + intros (pre & g' & E). apply NoSnoc in E as [E _]. discriminate E.
-    + left. reflexivity.
-    + unfold should_revert in *. rewrite existsb_app, Sr. reflexivity.
-  - repeat split.
-    + rewrite count_app, Cs. reflexivity.
-    + exists gas. apply LastTwo.
-    + rewrite count_app, Cp. reflexivity.
-    + intros H. discriminate H.
-    + intros H. discriminate H.
-    + intros (pre & k' & g' & E). apply NoSnoc in E as [E _]. discriminate E.
-    + intros _. exists body, gas. reflexivity.
-    + intros _. reflexivity.
-    + right; left. reflexivity.
-    + unfold should_revert in *. rewrite existsb_app, Sr. reflexivity.
-  - repeat split.
-    + rewrite count_app, Cs. reflexivity.
-    + exists gas. apply LastTwo.
-    + rewrite count_app, Cp. reflexivity.
-    + intros _. exists body, reason, gas. reflexivity.
-    + intros H. discriminate H.
-    + intros (pre & k' & g' & E). apply NoSnoc in E as [E _]. discriminate E.
-    + intros H. discriminate H.
-    + intros (pre & g' & E). apply NoSnoc in E as [E _]. discriminate E.
-    + right; right. reflexivity.
-    + unfold should_revert in *. rewrite existsb_app, Sr. reflexivity.
+  destruct T as [[-> [k ->]] | [[-> ->] | [-> [reason ->]]]]; repeat split.
+  all: try reflexivity.
+  all: try (rewrite count_app, ?Cs, ?Cp; reflexivity).
+  all: try (eexists; apply LastTwo).
+  all: try (intros H; discriminate H).
+  all: try (intros; do 3 eexists; reflexivity).
+  all: try (intros; do 2 eexists; reflexivity).
+  all: try (intros (pre & k' & g' & E); symmetry in E; apply NoSnoc in E as [E _]; discriminate E).
+  all: try (intros (pre & g' & E); symmetry in E; apply NoSnoc in E as [E _]; discriminate E).
+  all: try (left; reflexivity).
+  all: try (right; left; reflexivity).
+  all: try (right; right; reflexivity).
+  all: try (unfold should_revert in *; rewrite existsb_app, Sr; reflexivity).
 Qed.
 
 (* at most MAX_RECEIPTS receipts for ALL push sequences, whatever the receipts and their order *)
@@ -285,3 +264,104 @@ Proof.
   apply IH. destruct (push rs x) as [rs'| |] eqn:P; [|exact H|exact H].
   apply (push_bound _ _ _ H P).
 Qed.
+
+(* ------------------------------------------------------------------ receipts root *)
+Section RootProofs.
+  Context {D : Type}.
+  Variables (leaf_sum : bytes -> D) (node_sum : D -> D -> D) (empty_sum : D).
+  Variable enc : receipt -> bytes.
+
+  Lemma calc_push_all_snoc l : forall s d,
+    calc_push_all leaf_sum node_sum s (l ++ [d]) = (do s' <- calc_push_all leaf_sum node_sum s l; calc_push leaf_sum node_sum s' d).
+  Proof.
+    induction l as [|x t IH]; intros s d; cbn [app calc_push_all].
+    - cbn [opt_bind]. destruct (calc_push leaf_sum node_sum s d); reflexivity.
+    - destruct (calc_push leaf_sum node_sum s x) as [s1|]; cbn [opt_bind]; [apply IH | reflexivity].
+  Qed.
+
+  Definition rctx_inv (c : @rctx D) : Prop :=
+    rc_tree c = calc_push_all leaf_sum node_sum [] (map enc (rc_receipts c)) /\ rlen (rc_receipts c) <= MAX_RECEIPTS.
+
+  Lemma rctx_push_inv c r c' : rctx_inv c -> rctx_push leaf_sum node_sum enc c r = Some c' -> rctx_inv c'.
+  Proof.
+    intros [T L]. unfold rctx_push. destruct (push (rc_receipts c) r) as [rs| |] eqn:P; try discriminate.
+    intros H; injection H as <-. destruct (push_bound _ _ _ L P) as [B ->]. split; cbn [rc_receipts rc_tree].
+    - rewrite map_app. cbn [map]. rewrite calc_push_all_snoc. rewrite T. reflexivity.
+    - exact B.
+  Qed.
+
+  Lemma rctx_push_all_inv rs : forall c, rctx_inv c -> rctx_inv (rctx_push_all leaf_sum node_sum enc c rs).
+  Proof.
+    induction rs as [|r t IH]; intros c I; cbn [rctx_push_all]; [exact I|].
+    apply IH. destruct (rctx_push leaf_sum node_sum enc c r) as [c'|] eqn:P; [eapply rctx_push_inv; eassumption | exact I].
+  Qed.
+
+  (* the incremental root of the context is the RFC 6962 tree hash of the encoded receipts *)
+  Theorem rctx_root_is_MTH c :
+    rctx_inv c ->
+    rctx_root node_sum empty_sum c = Some (MTH leaf_sum node_sum empty_sum (map enc (rc_receipts c))).
+  Proof.
+    intros [T L]. unfold rctx_root. rewrite T.
+    rewrite <- (calculator_root_is_MTH leaf_sum node_sum empty_sum (map enc (rc_receipts c))).
+    - reflexivity.
+    - rewrite map_length, <- rlen_length. maxr. change (2 ^ 63) with 9223372036854775808. lia.
+  Qed.
+
+  Theorem receipts_root_is_MTH rs :
+    let c := rctx_push_all leaf_sum node_sum enc (@rctx_new D) rs in
+    rctx_root node_sum empty_sum c = Some (MTH leaf_sum node_sum empty_sum (map enc (rc_receipts c))) /\
+    rlen (rc_receipts c) <= MAX_RECEIPTS.
+  Proof.
+    cbn zeta. assert (I : rctx_inv (rctx_push_all leaf_sum node_sum enc (@rctx_new D) rs)).
+    { apply rctx_push_all_inv. split; cbn; [reflexivity | maxr; lia]. }
+    split; [apply rctx_root_is_MTH; exact I | apply I].
+  Qed.
+End RootProofs.
+
+(* ------------------------------------------------------------------ MemoryClient rollback *)
+Theorem client_rollback {T : Type} (s : @mstorage T) (writes : T -> T) (ok : bool) (rs : list receipt) :
+  ms_memory s = ms_transacted s ->
+  (ok = false \/ should_revert rs = true) ->
+  ms_memory (client_transact s writes ok rs) = ms_memory s /\
+  ms_transacted (client_transact s writes ok rs) = ms_transacted s.
+Proof.
+  intros C [-> | R]; unfold client_transact.
+  - cbn. split; [symmetry; exact C | reflexivity].
+  - rewrite R. destruct ok; cbn; split; try reflexivity; symmetry; exact C.
+Qed.
+
+Theorem client_commit {T : Type} (s : @mstorage T) (writes : T -> T) (rs : list receipt) :
+  should_revert rs = false ->
+  ms_memory (client_transact s writes true rs) = writes (ms_memory s) /\
+  ms_transacted (client_transact s writes true rs) = writes (ms_memory s).
+Proof. intros R. unfold client_transact. rewrite R. cbn. split; reflexivity. Qed.
+
+(* a completed run that did not succeed is rolled back by the in-memory client; a successful one
+   is committed *)
+Theorem completed_rollback {T : Type} gas prog rs result (s : @mstorage T) (writes : T -> T) :
+  run gas initial prog = Done rs result ->
+  ms_memory s = ms_transacted s ->
+  (result <> SER_Success -> ms_memory (client_transact s writes true rs) = ms_memory s) /\
+  (result = SER_Success -> ms_memory (client_transact s writes true rs) = writes (ms_memory s)).
+Proof.
+  intros H C. destruct (completed_wellformed _ _ _ _ H) as [W _].
+  destruct (wellformed_facts _ _ W) as (_ & _ & _ & _ & _ & _ & _ & SR).
+  split; intros R.
+  - apply client_rollback; [exact C|]. right. rewrite SR. destruct (N.eqb_spec result SER_Success); [contradiction | reflexivity].
+  - apply client_commit. rewrite SR, R. reflexivity.
+Qed.
+
+(* ------------------------------------------------------------------ examples *)
+Example example_run_success :
+  run 17 initial [IBody RK_Log; ICall RK_Call; IBody RK_Transfer; IRet RK_Return; ISilent; IRet RK_ReturnData]
+  = Done [RcBody RK_Log; RcBody RK_Call; RcBody RK_Transfer; RcReturn false RK_Return; RcReturn true RK_ReturnData;
+          RcScriptResult SER_Success 17] SER_Success.
+Proof. vm_compute. reflexivity. Qed.
+Example example_run_revert_in_call :
+  run 5 initial [ICall RK_Call; ICall RK_Call; IRvrt; IBody RK_Log]
+  = Done [RcBody RK_Call; RcBody RK_Call; RcRevert; RcScriptResult SER_Revert 5] SER_Revert.
+Proof. vm_compute. reflexivity. Qed.
+Example example_run_panic :
+  run 9 initial [IBody RK_Log; IFail PR_OutOfGas]
+  = Done [RcBody RK_Log; RcPanic PR_OutOfGas; RcScriptResult SER_Panic 9] SER_Panic.
+Proof. vm_compute. reflexivity. Qed.
